@@ -40,6 +40,45 @@ theorem C42_names_cond_partial (a : Auth) (shs : List Shard) (hidx : IndexExact 
       ∃ sh ∈ shs, ∃ s ∈ sh.series, s.name = m ∧ a.allows s.name s.tags = true ∧ holdsOf s.name s.tags c = true :=
   mem_namesByExpr a shs hidx htags c hc m
 
+/-- **Regular expressions under a fine-grained authorizer**: `WHERE key =~ /^(?:v1|v2|…)$/` returns a
+    measurement iff SOME live series of it that the authorizer allows has one of the values — no
+    matter how many values match and which of them only hidden series use (the scan of
+    `measurementNamesByTagFilter` must not stop at the first matching value). -/
+theorem C42_regex_auth (a : Auth) (shs : List Shard) (hidx : IndexExact shs) (htags : TagsFn shs)
+    (key : Bytes) (vals : List Bytes) (hk : key ≠ nameKey) (hv : [] ∉ vals) (m : Bytes) :
+    m ∈ measurementNames a shs (some (.re key false vals)) ↔
+      ∃ sh ∈ shs, ∃ s ∈ sh.series, s.name = m ∧ a.allows s.name s.tags = true ∧
+        ∃ v ∈ vals, tagGet s.tags key = some v := by
+  have hc : condOK (.re key false vals) = true := by
+    simp only [condOK, hk, decide_false, Bool.false_or, Bool.not_false, Bool.true_and, Bool.not_eq_true',
+      List.contains_eq_mem, decide_eq_false_iff_not]
+    exact hv
+  rw [C42_names_cond_partial a shs hidx htags _ hc m]
+  constructor
+  · rintro ⟨sh, hsh, s, hs, hn, hal, hh⟩
+    refine ⟨sh, hsh, s, hs, hn, hal, ?_⟩
+    simp only [holdsOf, hk, if_false, Bool.bne_false, List.contains_eq_mem, decide_eq_true_eq] at hh
+    cases hg : tagGet s.tags key with
+    | none => rw [hg] at hh; exact absurd hh hv
+    | some v => rw [hg] at hh; exact ⟨v, hh, rfl⟩
+  · rintro ⟨sh, hsh, s, hs, hn, hal, v, hvm, hg⟩
+    refine ⟨sh, hsh, s, hs, hn, hal, ?_⟩
+    simp only [holdsOf, hk, if_false, Bool.bne_false, List.contains_eq_mem, decide_eq_true_eq, hg]
+    exact hvm
+
+/-- the shape of seeded change C42-a: `cpu` has the matching host value `a1` only on a hidden
+    series (tag `secret`) and the later matching value `a2` on a visible series of another shard;
+    `disk` matches only through hidden series; `mem` is plainly visible -/
+example :
+    measurementNames (.deny [([115], [120])] [])
+      [⟨1, [⟨[99], [([104], [97, 49]), ([115], [120])], [], [(0, 1)]⟩,
+             ⟨[100], [([104], [97, 49]), ([115], [120])], [], [(0, 1)]⟩,
+             ⟨[109], [([104], [97, 49])], [], [(0, 1)]⟩],
+         [([99], [104], [97, 49]), ([99], [115], [120]), ([100], [104], [97, 49]), ([100], [115], [120]),
+          ([109], [104], [97, 49])]⟩,
+       ⟨2, [⟨[99], [([104], [97, 50])], [], [(100, 1)]⟩], [([99], [104], [97, 50])]⟩]
+      (some (.re [104] false [[97, 49], [97, 50]])) = [[99], [109]] := by decide
+
 /-- hidden series never surface a name (no condition): if the authorizer allows no series of `m`,
     `m` is not returned -/
 theorem C42_hidden_not_returned (a : Auth) (shs : List Shard) (m : Bytes)
